@@ -911,6 +911,29 @@ SPECS["C02"] = {
 }
 
 
+SPECS["C11"] = {
+    "pid": "C11",
+    "coq_targets": ["Properties/C11.vo", "Checks/C11client.vo"],
+    "parts": [client_part("c11", "C11client", has("in-flight>=1"),
+                          "the real dispatch tracked at least one request (so gauges are informative); runs are 40..120 ops "
+                          "long so that table slots are reused")],
+    "trusted_base": COMMON_TB + CLIENT_TB,
+    "level_text": "Client half proved: C11_client_bound (every transport, every op list, no hypothesis: tracked requests <= "
+                  "max_in_flight and pending timers = tracked requests after every dispatch poll) and C11_client_monitor "
+                  "(in addition: once every call is done or abandoned and the dispatch went idle after a clean poll, zero "
+                  "requests and zero timers remain; invariant 'every in-flight id is covered by an awaiting call or a queued "
+                  "cancel' + 'a clean Pending poll empties the cancel queue'). Tied to the real client by long runs with slot "
+                  "reuse, all removal routes (reply, cancel, expiry, send failure, terminal error, guard drop, dispatch drop) "
+                  "and the read-only gauges of hook H2 compared after every dispatch poll.",
+    "level_note": _CLIENT_NOTE + "Server half (in_flight equals the yielded incarnations not yet answered, cancelled, expired "
+                  "or abandoned; timers = tracked) is being added from the server model; K2 delays server reclamation and is "
+                  "a known finding there.",
+    "design_ref": "DESIGN.md section 6 (C11)",
+    "assumptions": ["one op is atomic (one poll, one drop step, one delivery)",
+                    "fewer than 2^64 operations for the reclaimed clause"],
+}
+
+
 # ---------------------------------------------------------------------------------------------
 # Translator side condition shared by C16 and C09: the panic-site inventory of the anchored
 # sources must equal the pinned, justified map tools/panic_sites.json.
